@@ -77,6 +77,13 @@ class _GenClose(BaseException):
     pass
 
 
+class _Through(BaseException):
+    """Carries whatever the consumer of an inline-run generator raised through the frames of the generator body."""
+    def __init__(self, exc):
+        BaseException.__init__(self)
+        self.exc = exc
+
+
 threading.stack_size(128 * 1024 * 1024)
 
 
@@ -102,6 +109,8 @@ class LazyGen(object):
 
     def __next__(self):
         if self.done:
+            if getattr(self, 'inlined', False) and not getattr(self, 'finished_inline', True):
+                raise _Abort('a generator that was consumed in place is resumed by another holder')
             raise StopIteration
         I = self.interp
         consumer_state = (I.module, I.depth)
@@ -141,6 +150,51 @@ class LazyGen(object):
         self.to_gen.acquire()
         if self.closing:
             raise _GenClose()
+
+    def fresh(self):
+        return self.thread is None and not self.done
+
+    def run_inline(self, on_item):
+        """Run the whole body in the caller's thread, calling on_item(value) at every yield: what CPython does when the only consumer drives the
+        generator from start to end (a `for` over a generator nobody else holds, list() / sorted() / ... of it). The order of the effects of the
+        generator body and of the consumer is exactly the lazy one; no thread is needed. Whatever on_item raises (break, return, an exception of
+        the loop body) travels through the frames of the generator body without being catchable there, as a close() of the generator would."""
+        I = self.interp
+        consumer_state = (I.module, I.depth)
+        self.done = True
+        self.inlined = True
+        self.finished_inline = False
+
+        class Handle(object):
+            closing = False
+
+            def yield_(self, v):
+                gen_state = (I.module, I.depth)
+                I.module, I.depth = consumer_state
+                try:
+                    on_item(v)
+                except _Through:
+                    raise
+                except BaseException as ex:
+                    raise _Through(ex)
+                finally:
+                    I.module, I.depth = gen_state
+        try:
+            try:
+                self.runner(Handle())
+                self.finished_inline = True
+            except _Through as t:
+                raise t.exc
+        finally:
+            I.module, I.depth = consumer_state
+
+    def drain(self):
+        """Every element, for a consumer that takes them all at once."""
+        if self.fresh():
+            out = []
+            self.run_inline(out.append)
+            return out
+        return list(self)
 
     def close(self):
         if self.thread is not None and not self.done:
@@ -798,6 +852,9 @@ class Interp(object):
         g = env.get('__gen__')
         if g is None or v is TOP:
             raise _Abort('yield from unknown')
+        if isinstance(v, LazyGen) and v.fresh():
+            v.run_inline(g.yield_)
+            return None
         for item in self.lazily(v):
             g.yield_(item)
         return None
@@ -823,11 +880,16 @@ class Interp(object):
             it = self.ev(g.iter, env2)
             if it is TOP or isinstance(it, Obj):
                 raise _Abort('comprehension over unknown iterable ' + src(g.iter))
-            for item in self.iterate(it):
+            def one(item):
                 env3 = dict(env2)
                 self.bind(g.target, item, env3)
                 if all(self.decide(self.ev(c, env3)) for c in g.ifs):
                     rec(i + 1, env3)
+            if isinstance(it, LazyGen) and it.fresh():
+                it.run_inline(one)
+            else:
+                for item in self.iterate(it):
+                    one(item)
         try:
             rec(0, dict(env))
         except _Abort:
@@ -836,7 +898,7 @@ class Interp(object):
 
     def materialise(self, v):
         if isinstance(v, LazyGen):
-            return list(v)
+            return v.drain()
         if isinstance(v, OneShot):
             return v.take()
         return v
@@ -851,7 +913,7 @@ class Interp(object):
 
     def iterate(self, it):
         if isinstance(it, LazyGen):
-            return list(it)
+            return it.drain()
         if isinstance(it, OneShot):
             return it.take()
         if isinstance(it, dict):
@@ -1171,7 +1233,13 @@ class Interp(object):
             if not hasattr(self, '_default_keep'):
                 self._default_keep = []
             self._default_keep.append((d, clo.env))
-            cache[key] = self.ev(d, clo.env)
+            old_module = self.module
+            if getattr(clo, 'module', None):
+                self.module = clo.module
+            try:
+                cache[key] = self.ev(d, clo.env)
+            finally:
+                self.module = old_module
         return cache[key]
 
     def call_method(self, cls_qual, name, self_obj, args, kwargs=None):
@@ -1216,10 +1284,15 @@ class Interp(object):
     def repo_isinstance(self, obj_cls, ref):
         if self.model is None:
             return False
-        for cq in self.model.classes:
-            if cq.rsplit('.', 1)[1] == obj_cls:
-                return any(k.rsplit('.', 1)[1] == ref for k in self.model.mro(cq))
-        return False
+        cache = self.model.__dict__.setdefault('_repo_isinstance_cache', {})
+        key = (obj_cls, ref)
+        if key not in cache:
+            cache[key] = False
+            for cq in self.model.classes:
+                if cq.rsplit('.', 1)[1] == obj_cls:
+                    cache[key] = any(k.rsplit('.', 1)[1] == ref for k in self.model.mro(cq))
+                    break
+        return cache[key]
 
     def builtin_len(self, args, kwargs, e, env):
         v = args[0]
@@ -1575,6 +1648,19 @@ class Interp(object):
             if it is TOP or isinstance(it, Obj):
                 raise _Abort('loop over unknown iterable ' + src(s.iter))
             broke = False
+            if isinstance(it, LazyGen) and it.fresh() and isinstance(s.iter, ast.Call):
+                # the generator object is a temporary of this loop: its body is run in place, the loop body at every yield
+                def on_item(item, _s=s, _env=env):
+                    self.bind(_s.target, item, _env)
+                    try:
+                        self.block(_s.body, _env)
+                    except _Continue:
+                        pass
+                try:
+                    it.run_inline(on_item)
+                except _Break:
+                    broke = True
+                it = ()
             for item in self.lazily(it):
                 self.bind(s.target, item, env)
                 try:
@@ -1620,8 +1706,8 @@ class Interp(object):
             else:
                 self.block(s.orelse, env)
             finally:
-                pass
-            self.block(s.finalbody, env)
+                if s.finalbody:
+                    self.block(s.finalbody, env)
         elif isinstance(s, ast.With):
             managers = []
             for it in s.items:
@@ -1645,12 +1731,12 @@ class Interp(object):
             raise _Abort('statement ' + type(s).__name__)
 
 
-def _is_generator(fnode, _cache={}):
-    r = _cache.get(id(fnode))
+def _is_generator(fnode):
+    r = getattr(fnode, '_pm_is_generator', None)
     if r is None:
         from .model import walk_own
         r = any(isinstance(n, (ast.Yield, ast.YieldFrom)) for n in walk_own(fnode))
-        _cache[id(fnode)] = r
+        fnode._pm_is_generator = r
     return r
 
 
